@@ -2,7 +2,7 @@ INIT Init
 NEXT Next
 CONSTANT Mode = "gen"
 CONSTANT Depth = 2
-CONSTANT Variants = {2, 3}
+CONSTANT Variants = {2, 3, 4}
 CONSTANT LenW = 4
 CONSTANT HashW = 32
 CONSTANT G1W = 48
